@@ -174,9 +174,13 @@ impl EmmyLuaAnalysis {
                 }
             }
         }
-        self.compilation
-            .remove_index(removed_files.into_iter().collect());
-        let updated_files: Vec<FileId> = updated_files.into_iter().collect();
+        // the sets are randomly seeded: sort so that the order in which files are
+        // removed and re-analysed does not change from run to run
+        let mut removed_files: Vec<FileId> = removed_files.into_iter().collect();
+        removed_files.sort();
+        self.compilation.remove_index(removed_files);
+        let mut updated_files: Vec<FileId> = updated_files.into_iter().collect();
+        updated_files.sort();
         self.compilation.update_index(updated_files.clone());
         updated_files
     }
